@@ -20,6 +20,9 @@ def make_cases(seed, tier):
         for i in range(per):
             rng = rt.rng_for(seed, PID, m, i)
             s, form = gen.gen_valid(rng, m)
+            if i % 4 == 3:
+                s, lab = gen.mutate(rng, s, long_ok=False)
+                form = "mutated:" + lab.split("-")[0]
             if gen.cost_units(s, 64) > BUDGET:
                 skipped += 1
                 continue
@@ -61,7 +64,11 @@ def do_chunk(chunk):
         h = rt.out_of(r)
         acc.count("successes")
         acc.count("ok/" + m)
-        rm = gen.result_method(s, len(p)) or m
+        rm = gen.result_method(s, len(p))
+        if rm is None:
+            acc.violation("%s/unclaimed-setting-hashed/%s" % (PID, m), "setting=%r result=%r" % (s[:100], h[:100]),
+                          rt.replay_obj(FL, setup + [ln]))
+            continue
         why = gen.wellformed(rm, h)
         if why:
             acc.violation("%s/%s/%s" % (PID, why, m),
@@ -70,7 +77,7 @@ def do_chunk(chunk):
                           rt.replay_obj(FL, setup + [ln]))
             continue
         # same method prefix as the setting
-        tag = gen.TAG[gen.classify(s)]
+        tag = gen.TAG[rm if rm != "descrypt" else "descrypt"]
         if tag:
             if not h.startswith(tag):
                 acc.violation("%s/prefix-changed/%s" % (PID, m), "setting=%r result=%r" % (s, h),
